@@ -97,4 +97,6 @@ def main(tier):
     bounds.check(rep, {'ec_mad', 'ec_mul'}, 'MAD', 37)
     import gfrows
     gfrows.check(rep, 35)
+    import baseloops
+    baseloops.check(rep, 'UPD', ['ec_encode_data_update_base', 'gf_vect_mad_base', 'gf_vect_mul_base'], 4)
     return rep.finish()
